@@ -250,6 +250,8 @@ func (p c07) Gen(c *run.Ctx, idx int) (json.RawMessage, error) {
 		if r.Intn(4) == 0 {
 			pr.ForceNodeRoot, pr.PNodeSecond = true, 0.5
 		}
+		// string literals with quotes, backslashes, control characters, non-ASCII text, line breaks
+		pr.HostileStrings = r.Intn(3) == 0
 		return genValidOp(r, cu.mono, pr)
 	}
 	goodBody := func() map[string]any {
